@@ -1,6 +1,6 @@
 (* Proofs for FS/Folder.v (C10). *)
 From stdpp Require Import gmap.
-From Coq Require Import Lia.
+From Coq Require Import Lia Permutation.
 From Verif Require Import Base.Bytes Lib.Path FS.Namespace FS.NamespaceProofs FS.Folder.
 Local Open Scope N_scope.
 
@@ -128,4 +128,96 @@ Proof.
   destruct (w !! pi) as [[| | |]|]; try reflexivity; try (now rewrite lookup_insert_ne).
   destruct (w !! p) eqn:Ew; [now rewrite Ew|]. destruct (w !! parent p) as [[| | |]|]; try (now rewrite Ew).
   rewrite lookup_insert_ne by assumption. exact Ew.
+Qed.
+
+(* ---- the walk is complete and reports nothing twice ---- *)
+Lemma children_complete (w : world) d n x : w !! (d ++ [n]) = Some x -> In (n, x) (children w d).
+Proof.
+  intros H. unfold children. apply in_concat. exists [(n, x)]. split; [|now left].
+  apply in_map_iff. exists (d ++ [n], x). split.
+  - rewrite rev_app_distr. cbn. rewrite bool_decide_eq_true_2; [reflexivity|apply rev_involutive].
+  - apply elem_of_list_In, elem_of_map_to_list. exact H.
+Qed.
+
+(* every entry below p all of whose ancestors (down to p) are folders is reported by the walk *)
+Theorem walk_complete : forall (fuel : nat) (w : world) (p rest : list name) (x : node),
+  rest <> [] -> (List.length rest <= fuel)%nat ->
+  w !! (p ++ rest) = Some x ->
+  (forall k, (0 < k < List.length rest)%nat -> w !! (p ++ firstn k rest) = Some NDir) ->
+  In (p ++ rest, x) (walk fuel w p).
+Proof.
+  induction fuel as [|f IH]; intros w p rest x Hne Hf Hq Hanc; [destruct rest; [congruence|cbn in Hf; lia]|].
+  destruct rest as [|n1 r]; [congruence|]. cbn [walk]. apply in_concat.
+  destruct r as [|n2 r'].
+  - exists ((p ++ [n1], x) :: match x with NDir => walk f w (p ++ [n1]) | _ => [] end). split; [|now left].
+    apply in_map_iff. exists (n1, x). split; [reflexivity|]. apply sort_by_in. now apply children_complete.
+  - assert (Hd : w !! (p ++ [n1]) = Some NDir).
+    { specialize (Hanc 1%nat). cbn in Hanc. apply Hanc. lia. }
+    exists ((p ++ [n1], NDir) :: walk f w (p ++ [n1])). split.
+    + apply in_map_iff. exists (n1, NDir). split; [reflexivity|]. apply sort_by_in. now apply children_complete.
+    + right. replace (p ++ n1 :: n2 :: r') with ((p ++ [n1]) ++ n2 :: r') by (rewrite <- app_assoc; reflexivity).
+      apply IH; [discriminate|cbn in *; lia| |].
+      * rewrite <- app_assoc. exact Hq.
+      * intros k Hk. rewrite <- app_assoc. cbn [app]. specialize (Hanc (S k)). cbn [firstn] in Hanc. apply Hanc. cbn in *. lia.
+Qed.
+
+Lemma ins_by_perm {A} (key : A -> bytes) x (l : list A) : Permutation (ins_by key x l) (x :: l).
+Proof.
+  induction l as [|y l IH]; cbn; [reflexivity|]. destruct (bytes_ltb (key x) (key y)); [reflexivity|].
+  rewrite IH. apply perm_swap.
+Qed.
+Lemma sort_by_perm {A} (key : A -> bytes) (l : list A) : Permutation (sort_by key l) l.
+Proof. induction l as [|x l IH]; cbn; [reflexivity|]. rewrite ins_by_perm. now rewrite IH. Qed.
+
+(* the names of a folder's entries are pairwise different (they are keys of one map) *)
+Lemma children_names_nodup (w : world) d : base.NoDup (map fst (children w d)).
+Proof.
+  unfold children.
+  pose proof (NoDup_fst_map_to_list w) as Hk. change (fmap fst (map_to_list w)) with (map fst (map_to_list w)) in Hk.
+  induction (map_to_list w) as [|[p x] l IH]; cbn [map concat]; [constructor|].
+  inversion Hk as [|? ? Hnotin Hrest]; subst. specialize (IH Hrest).
+  destruct (rev p) as [|n rd] eqn:Er; [exact IH|].
+  case_bool_decide as Hd; [|exact IH]. cbn [app map]. constructor; [|exact IH].
+  intros Hin. apply elem_of_list_In in Hin. apply in_map_iff in Hin as ([n' y] & Hn & Hin). cbn in Hn. subst n'.
+  apply in_concat in Hin as (blk & Hblk & Hin). apply in_map_iff in Hblk as ([p' x'] & <- & Hp').
+  destruct (rev p') as [|n0 rd'] eqn:Er'; [destruct Hin|].
+  case_bool_decide as Hd'; [|destruct Hin]. destruct Hin as [[= -> ->]|[]].
+  assert (p' = p).
+  { rewrite <- (rev_involutive p'), <- (rev_involutive p), Er, Er'. cbn. now rewrite Hd, Hd'. }
+  subst p'. apply Hnotin. apply elem_of_list_In. apply in_map_iff. exists (p, y). split; [reflexivity|exact Hp'].
+Qed.
+
+(* the walk reports no path twice *)
+Theorem walk_nodup : forall (fuel : nat) (w : world) (p : list name), base.NoDup (map fst (walk fuel w p)).
+Proof.
+  induction fuel as [|f IH]; intros w p; [constructor|]. cbn [walk].
+  assert (Hn : base.NoDup (map fst (sort_by fst (children w p)))).
+  { rewrite (Permutation_map fst (sort_by_perm fst (children w p))). apply children_names_nodup. }
+  induction (sort_by fst (children w p)) as [|[n x] cs IHc]; cbn [map concat]; [constructor|].
+  inversion Hn as [|? ? Hnot Hrest]; subst. specialize (IHc Hrest).
+  rewrite map_app. apply NoDup_app. repeat split.
+  - (* the block of one entry *)
+    cbn [map fst]. constructor.
+    + intros Hin. apply elem_of_list_In in Hin. destruct x; try destruct Hin.
+      apply in_map_iff in Hin as ([q y] & Hq & Hin). cbn in Hq. subst q.
+      apply walk_sound in Hin as (_ & _ & Hlen). lia.
+    + destruct x; try constructor. apply IH.
+  - (* blocks of different entries share no path: all paths of a block begin with p ++ [name] *)
+    intros q Hq1 Hq2. apply elem_of_list_In in Hq1, Hq2.
+    assert (P1 : firstn (S (List.length p)) q = p ++ [n]).
+    { cbn [map fst] in Hq1. destruct Hq1 as [<-|Hq1].
+      - replace (S (List.length p)) with (List.length (p ++ [n])) by (rewrite app_length; cbn; lia). apply firstn_all.
+      - destruct x; try destruct Hq1. apply in_map_iff in Hq1 as ([q' y] & Hq' & Hin). cbn in Hq'. subst q'.
+        apply walk_sound in Hin as (_ & Hpre & _). rewrite app_length in Hpre. cbn in Hpre.
+        now replace (List.length p + 1)%nat with (S (List.length p)) in Hpre by lia. }
+    apply in_map_iff in Hq2 as ([q' y] & Hq' & Hin). cbn in Hq'. subst q'.
+    apply in_concat in Hin as (blk & Hblk & Hin). apply in_map_iff in Hblk as ([n2 x2] & <- & Hc2).
+    assert (P2 : firstn (S (List.length p)) q = p ++ [n2]).
+    { destruct Hin as [[= <- <-]|Hin].
+      - replace (S (List.length p)) with (List.length (p ++ [n2])) by (rewrite app_length; cbn; lia). apply firstn_all.
+      - destruct x2; try destruct Hin. apply walk_sound in Hin as (_ & Hpre & _). rewrite app_length in Hpre. cbn in Hpre.
+        now replace (List.length p + 1)%nat with (S (List.length p)) in Hpre by lia. }
+    rewrite P1 in P2. apply app_inv_head in P2. injection P2 as ->.
+    apply Hnot. apply elem_of_list_In. apply in_map_iff. exists (n2, x2). split; [reflexivity|exact Hc2].
+  - exact IHc.
 Qed.
